@@ -32,7 +32,10 @@ def mtStep (req : List String) : String :=
       let wantBlocked := if l then "second-blocked=1" else "second-blocked=0"
       if s.savepointExists && !s.trackingOn then "DIFF mt model reached a savepoint without allocation tracking"
       else if res ≠ wantSp then s!"DIFF mt forced {first} {parked}: model {wantSp}, implementation {res}"
-      else if blocked ≠ wantBlocked then s!"DIFF mt forced {first} {parked}: model {wantBlocked}, implementation {blocked}"
+      -- "blocked" is observed through a grace period: a call that the model lets run may still
+      -- be reported as blocked on a slow machine, so only the other direction is a disagreement
+      -- (the model says the call has to wait for the lock, the implementation did not wait)
+      else if l && blocked ≠ wantBlocked then s!"DIFF mt forced {first} {parked}: model {wantBlocked}, implementation {blocked}"
       else "ok"
     | _, _ => "bad-op"
   | _ => "bad-op"
